@@ -272,10 +272,10 @@ def rule_locate_one(ctx):
 def rule_locate_many(ctx):
     fi = ctx.fn(IDX + 'locate_many')
     VALUES, VAL = P_('values'), P_('val')
-    ev = run(ctx, fi)
     n = 0
-    for p in ret_paths(ev):
-        srt = [pol for a, pol in p.guards if a == P_('issorted')]
+    # (two scenarios: the option bound to True and to False, so that `sorter=None if issorted else ...` reads like the two branches of an if)
+    paths = [(p, [flag]) for flag in (True, False) for p in ret_paths(run(ctx, fi, bind={'issorted': const(flag)}))]
+    for p, srt in paths:
         v = p.value
         sscalls = list(T.calls_in(v, 'searchsorted'))
         if len(sscalls) != 1:
@@ -288,6 +288,8 @@ def rule_locate_many(ctx):
             ctx.violated('R4', fi, T.show(c), 'locate_many must search `val` in `values`', node=p.node)
             continue
         sorter = T.kw(c, 'sorter')
+        if sorter == T.CONST_NONE:
+            sorter = None
         if srt == [True]:
             if v != c:
                 ctx.violated('R4', fi, 'return ' + T.show(v), 'sorted branch must return the searchsorted positions', node=p.node)
@@ -301,6 +303,17 @@ def rule_locate_many(ctx):
         if not is_argsort:
             ctx.violated('R4', fi, T.show(c), 'labels are stored in any order: searchsorted needs sorter=argsort(values)',
                          node=p.node)
+            continue
+        # the permutation with one more slot for the one-past-the-end position, holding the last sorted (largest) label again
+        last = ('sub', sorter, ('slice', const(-1), T.CONST_NONE, T.CONST_NONE))
+        last1 = ('list', (('sub', sorter, const(-1)),))
+        padded = [('call', ('attr', ('name', 'np'), 'append'), (sorter, x), ()) for x in (last, last1, ('sub', sorter, const(-1)))] + \
+                 [('call', ('attr', ('name', 'np'), 'concatenate'), ((tag, (sorter, x)),), ()) for tag in ('list', 'tuple') for x in (last, last1)]
+        via_padded = (v[0] == 'call' and T.call_name(v) == 'take' and T.call_receiver(v) in padded and v[2][:1] == (c,)) or \
+                     (v[0] == 'sub' and v[1] in padded and v[2] == c)
+        if via_padded:
+            ctx.holds('R4', 'locate_many unsorted branch: sorter=argsort(values), mapped back through the permutation padded with its last entry')
+            n += 1
             continue
         mapped = (v[0] == 'call' and T.call_name(v) == 'take' and T.call_receiver(v) == sorter and v[2][:1] == (c,)) or \
                  (v[0] == 'sub' and v[1] == sorter and T.contains(v[2], c))
